@@ -10,6 +10,7 @@ import json
 import math
 import operator
 import random
+import re
 
 from common import *      # noqa: F401,F403
 import common
@@ -380,6 +381,7 @@ def oracle_edit_distance(rng, n, stats, props=('C03',)):
         if ts.obj.get_return_set() != flag0:
             v.append(viol('C12', 'tokenizer return_set flag changed by edit_distance_join', case, flag0, ts.obj.get_return_set()))
         tau = int(math.floor(t))
+        integral = float(t) == float(tau)      # C03: "against the integral threshold", "thresholds 0,1,2,..." — 1.5 is outside it
         op = OPS[kw['comp_op']]
         pairs = out_pairs(out, 'l_' + lk if 'l_out_prefix' not in kw else kw['l_out_prefix'] + lk,
                           'r_' + rk if 'r_out_prefix' not in kw else kw['r_out_prefix'] + rk)
@@ -401,15 +403,15 @@ def oracle_edit_distance(rng, n, stats, props=('C03',)):
                     case = dict(case, pair_strings=[ls, rs], true_levenshtein=d, py_stringmatching_levenshtein=int(dr))
                 else:
                     case = {k: x for k, x in case.items() if k not in ('pair_strings', 'true_levenshtein', 'py_stringmatching_levenshtein')}
-                if present and not qual:
+                if present and not qual and integral:
                     v.append(viol('C03', 'returned pair with distance %d not satisfying %s %d' % (d, kw['comp_op'], tau), case, None, [a, b]))
                 if present and len(got[(a, b)]) > 1:
                     v.append(viol('C03', 'key pair returned more than once', case, 1, [a, b]))
                 if present and oss and any(int(s) != d for s in got[(a, b)]):
                     v.append(viol('C03', '_sim_score differs from the Levenshtein distance', case, d, [int(s) for s in got[(a, b)]]))
-                if qual and share and not present and d <= tau:
+                if qual and share and not present and d <= tau and integral:
                     v.append(viol('C03', 'qualifying pair sharing a q-gram missing (distance %d, threshold %d)' % (d, tau), case, [a, b], None))
-                if qual and ts.padding and max(len(ls), len(rs)) >= ts.qval * tau - ts.qval + 2 and not present and d <= tau:
+                if qual and ts.padding and max(len(ls), len(rs)) >= ts.qval * tau - ts.qval + 2 and not present and d <= tau and integral:
                     v.append(viol('C03', 'padding corollary: long qualifying pair missing', case, [a, b], None))
         stats.hit('oracle.ed.rows', len(out))
         if 'C08' in props:
@@ -1054,8 +1056,8 @@ def oracle_history(rng, n, stats):
                             v.append(viol('C12', '%s filter_pair after other calls on the same filter object differs from the same call in isolation' % fk,
                                           dict(hcase, strings=[ls, rs]), iso, got))
                             break
-                    changed = sorted(k for k in set(vars(f)) | set(vars(twin)) if k != 'tokenizer' and
-                                     (k not in vars(f) or k not in vars(twin) or repr(vars(f)[k]) != repr(vars(twin)[k])))
+                    changed = sorted(k for k in set(obj_state(f)) | set(obj_state(twin)) if k != 'tokenizer' and
+                                     (k not in obj_state(f) or k not in obj_state(twin) or repr(obj_state(f)[k]) != repr(obj_state(twin)[k])))
                     if changed and not any(x['what'].startswith('%s filter_pair after' % fk) for x in v[-1:]):
                         # the calls left something on the filter object (a parameter re-written, a cache): harmless unless a
                         # later result depends on it — search a larger pool of pairs for one where it does
@@ -1102,6 +1104,16 @@ def oracle_history(rng, n, stats):
                 break
         stats.hit('oracle.history.len', len(history))
     return v
+
+
+def obj_state(o):
+    """attribute dictionary of an object, also when its class uses __slots__"""
+    d = dict(getattr(o, '__dict__', {}) or {})
+    for c in type(o).__mro__:
+        for k in getattr(c, '__slots__', ()) or ():
+            if isinstance(k, str) and hasattr(o, k):
+                d[k] = getattr(o, k)
+    return d
 
 
 def oracle_filter_objects(rng, n, stats):
@@ -1160,8 +1172,8 @@ def oracle_filter_objects(rng, n, stats):
             hist.append(op)
             stats.hit('oracle.filter_objects.' + op)
         else:
-            changed = sorted(k for k in set(vars(f)) | set(vars(twin)) if k != 'tokenizer' and
-                             (k not in vars(f) or k not in vars(twin) or repr(vars(f)[k]) != repr(vars(twin)[k])))
+            changed = sorted(k for k in set(obj_state(f)) | set(obj_state(twin)) if k != 'tokenizer' and
+                             (k not in obj_state(f) or k not in obj_state(twin) or repr(obj_state(f)[k]) != repr(obj_state(twin)[k])))
             if changed:
                 # something was left on the object: harmless unless a later result depends on it — search for a pair where it does
                 stats.hit('oracle.filter_objects.attributes_changed')
@@ -1271,6 +1283,10 @@ def oracle_laws(rng, n, stats, datasets=False):
 
 
 # ------------------------------------------------------------------ C15 validation matrix
+def exc_names(e):
+    return ' or '.join(c.__name__ for c in e) if isinstance(e, tuple) else e.__name__
+
+
 def oracle_validation(rng, n, stats):
     v = []
     from py_stringsimjoin.filter.overlap_filter import OverlapFilter
@@ -1330,7 +1346,7 @@ def oracle_validation(rng, n, stats):
                 continue
             R2 = R.copy()
             R2[ra] = pd.Series([rng.choice([5, 2.5, True])] + list(R2[ra].iloc[1:]), dtype=object, index=R2.index)
-            expect = TypeError
+            expect = (TypeError, AssertionError)      # C15 names neither class for this case: rejected mid-join today, up front is as good
         elif kind == 'id_clash':
             # VALID arguments whose output header contains the name '_id' (known finding K7: ValueError at the very end)
             kw2['l_out_prefix'], kw2['r_out_prefix'] = ('_', 'r_') if lk == 'id' else ('l_', 'r_')
@@ -1363,9 +1379,9 @@ def oracle_validation(rng, n, stats):
                 v.append(viol('C15', 'valid %s_join call rejected/crashed: %r' % (which, got), case))
         else:
             if got is None:
-                v.append(viol('C15', 'invalid argument (%s) accepted by %s_join' % (kind, which), case, expect.__name__, 'returned'))
+                v.append(viol('C15', 'invalid argument (%s) accepted by %s_join' % (kind, which), case, exc_names(expect), 'returned'))
             elif not isinstance(got, expect):
-                v.append(viol('C15', 'invalid argument (%s): %s_join raised %s instead of %s' % (kind, which, type(got).__name__, expect.__name__), case, expect.__name__, type(got).__name__))
+                v.append(viol('C15', 'invalid argument (%s): %s_join raised %s instead of %s' % (kind, which, type(got).__name__, exc_names(expect)), case, exc_names(expect), type(got).__name__))
         if ts2.obj.get_return_set() != flag0:
             v.append(viol('C15', 'tokenizer mode changed by a %s %s_join call (%s)' % ('rejected' if expect else 'valid', which, kind), case, flag0, ts2.obj.get_return_set()))
             ts2.obj.set_return_set(flag0)
@@ -1414,7 +1430,9 @@ def oracle_converter(rng, n, stats, known):
         mode = rng.choice(['series', 'frame'])
         case = {'entry': 'converter', 'mode': mode, 'dtype': str(s.dtype), 'values': [cell(x) for x in vals], 'inplace': inplace, 'return_col': return_col}
         present = [x for x in vals if not is_missing(x)]
-        numeric = kind in ('int', 'float_int', 'float', 'float_inf', 'float32', 'float_allnan', 'empty_float')
+        # pandas' nullable numeric dtypes are numeric columns too: today the converter raises TypeError on them (known finding
+        # K9, matched by the dtype name); a converter that handles them must convert them like any numeric column
+        numeric = kind in ('int', 'float_int', 'float', 'float_inf', 'float32', 'float_allnan', 'empty_float', 'nullable')
         all_int = numeric and len(present) > 0 and all(float(x).is_integer() for x in present)
 
         def expected(x):
@@ -1460,8 +1478,8 @@ def oracle_converter(rng, n, stats, known):
             else:
                 v.append(viol('C16', 'unexpected return value %r' % (res,), case))
                 continue
-            if not inplace and [cell(x) for x in holder] != [cell(x) for x in vals]:
-                v.append(viol('C16', 'input modified although inplace=False', case))
+            if not inplace and ([cell(x) for x in holder] != [cell(x) for x in vals] or str(holder.dtype) != str(s.dtype)):
+                v.append(viol('C16', 'input modified although inplace=False', case, str(s.dtype), str(holder.dtype)))
         out_obj = holder if (inplace and not doc_exception) else (res['c'] if isinstance(res, pd.DataFrame) else (res if isinstance(res, pd.Series) else holder))
         if list(out_obj.index) != list(s.index):
             v.append(viol('C16', 'row labels of the converted column differ from the input\'s', case, list(s.index)[:6], list(out_obj.index)[:6]))
@@ -1471,7 +1489,7 @@ def oracle_converter(rng, n, stats, known):
     try:
         dataframe_column_to_str(pd.DataFrame({'c': [1, 2]}), 'c', inplace=True, return_col=True)
         v.append(viol('C16', 'inplace together with return_col accepted', {'entry': 'converter', 'mode': 'frame', 'both_flags': True}))
-    except AssertionError:
+    except Exception:     # noqa: BLE001   C16 says "rejected": whichever exception class
         pass
     return v
 
@@ -1494,24 +1512,64 @@ def oracle_profiler(rng, n, stats, big_every=20):
             v.append(viol('C17', 'one row per profiled attribute, indexed by name', case, use, list(out.index)))
             continue
         nrows = len(df)
+        if nrows == 0:
+            continue          # C17 quantifies over non-empty tables; that a frame comes back for an empty one is C15's business
+        if 'Unique values' not in out.columns or 'Missing values' not in out.columns:
+            v.append(viol('C17', "the result lacks the 'Unique values' / 'Missing values' entries", case, None, [str(c) for c in out.columns]))
+            continue
+        # the comment: whatever the other column(s) are called (the property names only the two count entries)
+        other = [c for c in out.columns if c not in ('Unique values', 'Missing values')]
+        classes = {}
         for a in use:
             col = list(df[a])
             miss = sum(1 for x in col if is_missing(x))
             distinct = len(set(x for x in col if not is_missing(x))) + (1 if miss else 0)
-
-            def fmt(c):
-                return '%d (%s%%)' % (c, str(round(float(c) / float(nrows) * 100, 2)) if nrows else '0.0')
-            if out.loc[a, 'Unique values'] != fmt(distinct):
-                v.append(viol('C17', "'Unique values' is not the exact distinct count", dict(case, attr=a), fmt(distinct), out.loc[a, 'Unique values']))
-            if out.loc[a, 'Missing values'] != fmt(miss):
-                v.append(viol('C17', "'Missing values' is not the exact missing count", dict(case, attr=a), fmt(miss), out.loc[a, 'Missing values']))
-            com = out.loc[a, 'Comments']
+            for name, c in (('Unique values', distinct), ('Missing values', miss)):
+                # "the exact number (and percentage to two decimals)": `<count> (<percentage>%)`, the percentage compared as a
+                # number ('60.0%' and '60.00%' are the same percentage)
+                mt = PCT_ENTRY.match(str(out.loc[a, name]))
+                want = round(float(c) / float(nrows) * 100, 2)
+                if not mt or int(mt.group(1)) != c or abs(float(mt.group(2)) - want) > 1e-9:
+                    v.append(viol('C17', "'%s' is not the exact %s count" % (name, 'distinct' if name.startswith('Unique') else 'missing'), dict(case, attr=a),
+                                  '%d (%s%%)' % (c, want), out.loc[a, name]))
+            com = ' '.join(str(out.loc[a, c]) for c in other)
             is_key = distinct == nrows and miss == 0
-            if ('can be used as a key' in com) != is_key:
-                v.append(viol('C17', 'key recommendation wrong (distinct %d of %d, missing %d)' % (distinct, nrows, miss), dict(case, attr=a), is_key, com))
-            if ('will ignore' in com) != (miss > 0):
-                v.append(viol('C17', 'ignored-rows warning wrong (missing %d of %d)' % (miss, nrows), dict(case, attr=a), miss > 0, com))
+            classes.setdefault('key' if is_key else ('missing' if miss > 0 else 'plain'), []).append((a, com, distinct, miss))
+        # The wording of the comment is not part of the property.  With the library's present wording (established on a
+        # three-column calibration table) the phrases are tested directly; with any other wording the check is structural:
+        # a recommendation / warning is a non-empty comment that no column of another class carries.
+        kw_key, kw_miss = profiler_wording()
+        for cls, items in classes.items():
+            for a, com, distinct, miss in items:
+                if kw_key is not None:
+                    if (kw_key in com) != (cls == 'key'):
+                        v.append(viol('C17', 'key recommendation wrong (distinct %d of %d, missing %d)' % (distinct, nrows, miss), dict(case, attr=a), cls == 'key', com))
+                    if (kw_miss in com) != (cls == 'missing'):
+                        v.append(viol('C17', 'ignored-rows warning wrong (missing %d of %d)' % (miss, nrows), dict(case, attr=a), cls == 'missing', com))
+                else:
+                    others = {c2 for k2, it2 in classes.items() if k2 != cls for (_a, c2, _d, _m) in it2}
+                    if cls in ('key', 'missing') and (not com.strip() or com in others):
+                        v.append(viol('C17', ('key recommendation wrong (distinct %d of %d, missing %d)' if cls == 'key' else 'ignored-rows warning wrong (missing %d of %d)')
+                                      % ((distinct, nrows, miss) if cls == 'key' else (miss, nrows)), dict(case, attr=a), cls, com))
     return v
+
+
+PCT_ENTRY = re.compile(r'^\s*(\d+)\s*\(\s*(\d+(?:\.\d+)?)\s*%\s*\)\s*$')
+_WORDING = []
+
+
+def profiler_wording():
+    """(key phrase, missing phrase) if the library words its comments the way it does today, else (None, None)"""
+    if not _WORDING:
+        try:
+            cal = ssj.profile_table_for_join(pd.DataFrame({'k': [1, 2, 3], 'm': pd.Series(['x', None, 'x'], dtype=object), 'p': [1, 1, 2]}))
+            other = [c for c in cal.columns if c not in ('Unique values', 'Missing values')]
+            ck, cm, cp = (' '.join(str(cal.loc[a, c]) for c in other) for a in ('k', 'm', 'p'))
+            ok = 'can be used as a key' in ck and 'can be used as a key' not in cm + cp and 'will ignore' in cm and 'will ignore' not in ck + cp
+            _WORDING.append(('can be used as a key', 'will ignore') if ok else (None, None))
+        except Exception:     # noqa: BLE001
+            _WORDING.append((None, None))
+    return _WORDING[0]
 
 
 # ------------------------------------------------------------------ thorough-tier extras
@@ -1618,6 +1676,24 @@ def oracle_size_grid(nmax, stats):
                      [0.00011, 0.0005, 0.003, 0.00707, 0.00708]))
     cnt = 0
     one_empty_seen = False
+    from py_stringmatching import WhitespaceTokenizer as _WS
+    _tok = _WS(return_set=True)
+
+    def confirmed(m, t, n, k, want_dropped):
+        """the grid reads the private helpers get_size_lower/upper_bound under the convention `lo <= k <= hi`; a hit is only
+        reported if the PUBLIC SizeFilter.filter_pair behaves that way on strings with n and k tokens (the window is
+        computed from the left count)"""
+        try:
+            f = SIZE(_tok, m, t)
+            return bool(f.filter_pair(' '.join('w%d' % i for i in range(n)), ' '.join('w%d' % i for i in range(k)))) == want_dropped
+        except Exception:      # noqa: BLE001
+            return True
+
+    class _Confirmed(list):
+        def append(self, x):
+            if confirmed(x['case']['m'], x['case']['t'], x['case']['n'], x['case']['k'], 'drops' in x['what']):
+                list.append(self, x)
+    v = _Confirmed()
     for t in ths:
         ft = F(t)
         for n in range(1, nmax + 1):
@@ -1733,7 +1809,7 @@ def oracle_ed_filters_exhaustive(maxlen_ab, maxlen_abc, stats, tables=True):
 
 def oracle_split_exhaustive(nmax, kmax, stats):
     """C10: the REAL split_table yields a contiguous partition for every (table length <= nmax, 1 <= k <= min(len, kmax)),
-    exhaustively; and get_num_processes_to_launch follows its documented rule"""
+    exhaustively"""
     from py_stringsimjoin.utils import generic_helper as GH
     v = []
     cnt = 0
@@ -1747,14 +1823,13 @@ def oracle_split_exhaustive(nmax, kmax, stats):
                 v.append(viol('C10', 'split_table(%d rows, %d splits) raised %s' % (n, k, type(e).__name__), {'entry': 'split_table', 'len': n, 'k': k}))
                 continue
             flat = [x for p in parts for x in p]
-            if len(parts) != k or flat != table:
+            if flat != table:          # every row exactly once, in order: what the joins' chunking relies on (how many parts: not C10's business)
                 v.append(viol('C10', 'split_table(%d rows, %d splits) is not a contiguous partition (%d rows survive)' % (n, k, len(flat)),
                               {'entry': 'split_table', 'len': n, 'k': k}, n, len(flat)))
                 if len(v) > 10:
                     return v
-    for nj in list(range(-40, 41)):
-        exp = max(nj if nj >= 0 else common.CPU + 1 + nj, 1)
-        if GH.get_num_processes_to_launch(nj) != exp:
-            v.append(viol('C10', 'get_num_processes_to_launch(%d) = %r, expected %d' % (nj, GH.get_num_processes_to_launch(nj), exp), {'entry': 'num_procs', 'n_jobs': nj}))
+    # (how many workers an n_jobs value stands for is not part of C10 — only that the result does not depend on it; the
+    #  helper get_num_processes_to_launch is compared with the model in the correspondence suite `gen`, where a different
+    #  rule is a broken obligation, not a failing input)
     stats.hit('oracle.split_exhaustive.cases', cnt)
     return v
